@@ -527,6 +527,13 @@ fn forge(net: &Net, to: Addr, from: Addr, kind: u8, a: i32, b: i32, bytes: &[u8]
             if m.header.magic == 0 {
                 m.header.magic = 1;
             }
+            // another session cannot know our nonces: its sync replies carry its own
+            if let MBody::SyncReply { random_reply } = &mut m.body {
+                *random_reply ^= 0x5a5a_0000 | (a as u32 & 0xffff) | 1;
+            }
+            if let MBody::SyncRequest { random_request } = &mut m.body {
+                *random_request ^= 0x3c3c_0000 | (a as u32 & 0xffff) | 1;
+            }
             push(m)
         }
         // stray sync reply: random nonce, the sender's real magic
